@@ -1,8 +1,10 @@
 #include "box.hpp"
+#include "sched.hpp"
 
 #include <algorithm>
 #include <cstdio>
 #include <cstdlib>
+#include <thread>
 
 namespace sim
 {
@@ -109,8 +111,96 @@ bool combo_supported(KeyT k, ValT v)
     return false;
 }
 
+namespace
+{
+// Client-thread lifetime as a simulated dimension (world seq): every call into the container is made by a
+// newly created thread that ends with the call (thread-per-request callers).  Still one call at a time, so
+// the run is as deterministic as on one thread; what changes is that state a container keeps per *thread*
+// (thread_local generators, caches) starts afresh with every call.  Only the calls that can change the
+// container get a thread of their own (creating a thread under ASan costs ~0.1 ms, and the probes after
+// every step are hundreds of lookups); lookups and observers run on the simulator's thread.
+struct ThreadPerCallBox final : Box
+{
+    std::unique_ptr<Box> in;
+    explicit ThreadPerCallBox(std::unique_ptr<Box> b) : in(std::move(b)) {}
+    ~ThreadPerCallBox() override
+    {
+        on([&] { in.reset(); });
+    }
+    template<typename F>
+    static void on(F&& f)
+    {
+        std::thread t([&] {
+            sched::sim_thread(true);
+            f();
+            sched::sim_thread(false);
+        });
+        t.join();
+    }
+    bool insert(int key, uint32_t val, int allow, int64_t ttl_ms) override
+    {
+        bool r = false;
+        on([&] { r = in->insert(key, val, allow, ttl_ms); });
+        return r;
+    }
+    size_t insert_range(const std::vector<Item>& items, int allow, int form) override
+    {
+        size_t r = 0;
+        on([&] { r = in->insert_range(items, allow, form); });
+        return r;
+    }
+    bool erase(int key) override
+    {
+        bool r = false;
+        on([&] { r = in->erase(key); });
+        return r;
+    }
+    size_t erase_range(const std::vector<Item>& keys, int form) override
+    {
+        size_t r = 0;
+        on([&] { r = in->erase_range(keys, form); });
+        return r;
+    }
+    Found find(int key, bool peek) override { return in->find(key, peek); }
+    void find_range(const std::vector<Item>& keys, bool peek, int form, Result& out) override { in->find_range(keys, peek, form, out); }
+    void find_fill(const std::vector<Item>& keys, bool peek, int form, Result& out) override { in->find_fill(keys, peek, form, out); }
+    Found find_uc(int key, bool peek) override { return in->find_uc(key, peek); }
+    size_t age() override
+    {
+        size_t r = 0;
+        on([&] { r = in->age(); });
+        return r;
+    }
+    size_t clean() override
+    {
+        size_t r = 0;
+        on([&] { r = in->clean(); });
+        return r;
+    }
+    void clear() override
+    {
+        on([&] { in->clear(); });
+    }
+    void update_ttl(int64_t ms) override
+    {
+        on([&] { in->update_ttl(ms); });
+    }
+    size_t size() override { return in->size(); }
+    bool empty() override { return in->empty(); }
+    size_t capacity() override { return in->capacity(); }
+    const void* obj_addr() const override { return in->obj_addr(); }
+    size_t      obj_size() const override { return in->obj_size(); }
+};
+} // namespace
+
 std::unique_ptr<Box> make_box(const Config& cfg)
 {
+    if (cfg.fresh_thread)
+    {
+        Config c       = cfg;
+        c.fresh_thread = false;
+        return std::make_unique<ThreadPerCallBox>(make_box(c));
+    }
     switch (cfg.cont)
     {
         case Cont::lru:
